@@ -1,2 +1,3 @@
 CONSTANT DiskBlockBytes = 4096
+CONSTANT Bug = "none"
 SPECIFICATION Spec
